@@ -48,7 +48,7 @@ def _key(v, root):
             continue
     if rel is None:
         rel = "OUTSIDE:" + v.file_path
-    msg = re.sub(r"[^\s,:()]*?((?:app/|top_level)[\w.]+)", r"\1", v.message)     # paths quoted in messages, whatever their spelling
+    msg = re.sub(r"[^\s,:()]*?((?:app/|top_level)[\w.]+)", r"\1", v.message.replace("app/../", ""))     # paths quoted in messages, whatever their spelling
     return (v.rule_id, rel, v.line, msg[:80])
 
 
@@ -113,7 +113,8 @@ def make_h(tier):
         p2 = ctx.pick("grandparent", ("none", "build", "tests") if quick else ("none", "build", "tests", "dist", "test_data"))
         pname = ctx.pick("project_dir_name", ("proj", "dist", "build", "node_modules", "my.egg-info")) if p2 == "none" else "proj"
         spelling = ctx.pick("spelling", ("absolute", "dot-from-inside", "relative-from-parent", "absolute-other-cwd", "file-list-absolute",
-                                         "dotdot-from-excluded-subdir", "dotdot-from-plain-subdir", "absolute-from-cwd-with-own-ignore-file"))
+                                         "dotdot-from-excluded-subdir", "dotdot-from-plain-subdir", "absolute-from-cwd-with-own-ignore-file",
+                                         "absolute-through-dotdot"))
         base = _baseline()
         tmp = tempfile.mkdtemp(prefix="c09-")
         cwd0 = os.getcwd()
@@ -139,6 +140,9 @@ def make_h(tier):
                 (other / ".thailint.yaml").write_text("nesting:\n  enabled: false\nmagic-numbers:\n  enabled: false\n")
                 os.chdir(other)
                 vs = Linter(project_root=d).lint(str(d))
+            elif spelling == "absolute-through-dotdot":
+                vs = Linter(project_root=d).lint(str(d / "app" / ".." / "app")) + Linter(project_root=d).lint(str(d / "app" / ".." / "top_level.py")) \
+                    + Linter(project_root=d).lint(str(d / "app" / ".." / "top_skipped.py"))
             elif spelling.startswith("dotdot"):
                 sub = d / ("build" if "excluded" in spelling else "docs")
                 sub.mkdir()
@@ -185,6 +189,6 @@ def obligations(tier):
            functions=["Linter.__init__/lint", "Orchestrator.lint_directory/lint_files/lint_file", "_is_hardcoded_excluded", "IgnoreDirectiveParser.is_ignored",
                       "every rule's path-based exemptions (test-file detection, default ignore lists, is_ignored_path, DRY ignore_patterns)"],
            bounds="forked (real trees, nothing symbolic): parent directory name from the vocabulary derived from _HARDCODED_EXCLUDE_DIRS plus the test/ignore markers used by the linters; "
-                  "optional grandparent; 8 target spellings / working directories (one of them an unrelated directory with its own .thailintignore and .thailint.yaml)",
+                  "optional grandparent; 9 target spellings / working directories (one of them an unrelated directory with its own .thailintignore and .thailint.yaml)",
            timeout=900 if tier == "quick" else 3000, workers=14, must_cover=("same",)),
     ]
